@@ -123,7 +123,10 @@ func (r *RateLimit) ServeDNS(ctx context.Context, ch *middleware.Chain) {
 	l := r.getLimiter(w.RemoteIP())
 	cachedcookie = l.cookie.Load().(string)
 
-	if opt := req.IsEdns0(); opt != nil {
+	// An OPT of a version this server does not implement is answered
+	// BADVERS further down (RFC 6891 §6.1.3) and its options are not
+	// interpreted, the cookie included: the query takes the plain limiter.
+	if opt := req.IsEdns0(); opt != nil && opt.Version() == 0 {
 		for _, option := range opt.Option {
 			if option.Option() == dns.EDNS0COOKIE {
 				if len(option.String()) >= cookieSize {
@@ -185,7 +188,7 @@ func (r *RateLimit) serveWire(ctx context.Context, ch *middleware.Chain) {
 	l := r.getLimiter(w.RemoteIP())
 	cachedcookie := l.cookie.Load().(string)
 
-	if echo := ch.Request.CookieEcho(); echo != nil {
+	if echo := ch.Request.CookieEcho(); echo != nil && ch.Request.EDNSVersion() == 0 {
 		fullcookie := hex.EncodeToString(echo)
 		clientcookie := fullcookie[:cookieSize]
 		servercookie := dnsutil.GenerateServerCookie(r.cookiesecret, w.RemoteIP().String(), clientcookie)
